@@ -387,10 +387,10 @@ Qed.
 (* with the fix, the first thing marshalStruct does (Find) puts the cache into a state that
    does not depend on what was there: the whole walk is the same function of the value *)
 Lemma shown_struct_state_irrelevant : forall ffmt c sc, c_fixed c = true -> s_load sc <= c_limit0 c ->
-  forall fuel id d ps st1 st2,
-  shown_struct ffmt c sc fuel id d ps st1 = shown_struct ffmt c sc fuel id d ps st2.
+  forall fuel exp id d ps st1 st2,
+  shown_struct ffmt c sc fuel exp id d ps st1 = shown_struct ffmt c sc fuel exp id d ps st2.
 Proof.
-  intros ffmt c sc Hf Hl fuel id d ps st1 st2. destruct fuel as [|f]; [reflexivity|].
+  intros ffmt c sc Hf Hl fuel exp id d ps st1 st2. destruct fuel as [|f]; [reflexivity|].
   with_strategy opaque [find bind charge lookup collect_fields collect_elems] simpl.
   unfold bind at 1. symmetry. unfold bind at 1.
   rewrite !(find_fixed c sc _ Hf Hl). reflexivity.
@@ -401,8 +401,8 @@ Theorem encode_state_irrelevant : forall ffmt c sc fuel id v st,
   fst (encode ffmt c sc fuel id v st) = fst (encode ffmt c sc fuel id v None).
 Proof.
   intros ffmt c sc fuel id v st Hf Hl. unfold encode. destruct (as_struct v) as [d ps].
-  rewrite (shown_struct_state_irrelevant ffmt c sc Hf Hl fuel id d ps st None).
-  destruct (shown_struct ffmt c sc fuel id d ps None) as [[t st']|e|]; reflexivity.
+  rewrite (shown_struct_state_irrelevant ffmt c sc Hf Hl fuel [] id d ps st None).
+  destruct (shown_struct ffmt c sc fuel [] id d ps None) as [[t st']|e|]; reflexivity.
 Qed.
 
 (* Encode after any history of Encodes (of any values) on the same encoder writes what a
@@ -589,21 +589,21 @@ Lemma Forall_True : forall {A} (l : list A), Forall (fun _ => True) l.
 Proof. induction l; constructor; auto. Qed.
 
 Ltac step_sh_in H :=
-  with_strategy opaque [find bind charge lookup collect_fields collect_elems ret fail lift shown_enum
+  with_strategy opaque [find bind charge lookup collect_fields collect_elems ret fail lift shown_enum existsb c_cut andb
                         prim_elems ptr_elems list_len get_le get_bit ptr_at is_null as_struct
                         data_bytes text_bytes sint tvals_of Z.lxor Z.eqb Z.ltb Z.leb] simpl in H.
 
 Lemma shown_wf : forall ffmt c sc, schema_ok sc -> forall fuel,
-  (forall id d ps st t st', Forall rval_ok ps ->
-     shown_struct ffmt c sc fuel id d ps st = Ok (t, st') -> wf_tval t) /\
-  (forall e l st t st', ty_ff e -> rval_ok l ->
-     shown_list ffmt c sc fuel e l st = Ok (t, st') -> wf_tval t).
+  (forall exp id d ps st t st', Forall rval_ok ps ->
+     shown_struct ffmt c sc fuel exp id d ps st = Ok (t, st') -> wf_tval t) /\
+  (forall exp e l st t st', ty_ff e -> rval_ok l ->
+     shown_list ffmt c sc fuel exp e l st = Ok (t, st') -> wf_tval t).
 Proof.
   intros ffmt c sc Hsc. induction fuel as [|f [IHs IHl]].
   { split; intros; discriminate. }
   split.
   - (* marshalStruct *)
-    intros id d ps st t st' Hps H. step_sh_in H.
+    intros exp id d ps st t st' Hps H. step_sh_in H.
     apply bind_ok in H. destruct H as (u & s1 & _ & H).
     destruct (lookup (s_nodes sc) id) as [[dcount doff fcost fields| |]|] eqn:El; try discriminate.
     pose proof (lookup_ok _ _ _ Hsc El) as Hn. simpl in Hn.
@@ -647,13 +647,14 @@ Proof.
         eapply IHl; eassumption.
       * (* enum *) eapply shown_enum_wf; eassumption.
       * (* struct *)
-        apply bind_ok in Hv. destruct Hv as (p' & s9 & Hp & Hv).
-        assert (Hp' : rval_ok p').
-        { destruct (is_null (ptr_at ps off)).
-          - apply bind_ok in Hp. destruct Hp as (u7 & s10 & _ & Hp). apply ret_ok in Hp. now subst p'.
-          - apply ret_ok in Hp. subst p'. now apply ptr_at_ok. }
-        destruct (as_struct p') as [d' ps'] eqn:Ea.
-        eapply IHs; [|exact Hv]. eapply as_struct_ok; eassumption.
+        destruct (is_null (ptr_at ps off)).
+        -- destruct (c_cut c && existsb (Z.eqb sid) exp).
+           ++ apply ret_ok in Hv. subst v. exact I.
+           ++ apply bind_ok in Hv. destruct Hv as (u7 & s10 & _ & Hv).
+              destruct (as_struct dptr) as [d' ps'] eqn:Ea.
+              eapply IHs; [|exact Hv]. eapply as_struct_ok; eassumption.
+        -- destruct (as_struct (ptr_at ps off)) as [d' ps'] eqn:Ea.
+           eapply IHs; [|exact Hv]. eapply as_struct_ok; [|eassumption]. now apply ptr_at_ok.
       * (* interface *)
         apply ret_ok in Hv. subst v. destruct (is_null (ptr_at ps off)); [apply ident_null_ok|now left].
       * (* anypointer *) apply ret_ok in Hv. subst v. now right.
@@ -666,7 +667,7 @@ Proof.
       eapply IHs; eassumption.
     + apply ret_ok in Hstep. discriminate.
   - (* marshalList *)
-    intros e l st t st' Hty Hl H. step_sh_in H.
+    intros exp e l st t st' Hty Hl H. step_sh_in H.
     destruct e as [| |bits|bits|bits| | |ecost ee|eid|sid| |]; cbn [ty_ff] in Hty.
     + apply ret_ok in H. subst t. cbn [wf_tval]. apply wf_tvals_of.
       clear. induction (list_len l); simpl; constructor; auto. exact I.
@@ -723,7 +724,7 @@ Theorem parse_render : forall ffmt c sc fuel id v out,
 Proof.
   intros ffmt c sc fuel id v out Hsc Hv H. unfold render, encode, shown in *.
   destruct (as_struct v) as [d ps] eqn:Ea.
-  destruct (shown_struct ffmt c sc fuel id d ps None) as [[t st']|e|] eqn:Es; simpl in H; try discriminate.
+  destruct (shown_struct ffmt c sc fuel [] id d ps None) as [[t st']|e|] eqn:Es; simpl in H; try discriminate.
   inversion H; subst out. exists t.
   assert (Hw : wf_tval t).
   { destruct (shown_wf ffmt c sc Hsc fuel) as [Hs _]. eapply Hs; [|exact Es]. eapply as_struct_ok; eassumption. }
@@ -781,3 +782,123 @@ Example parse_render_example_g :
                             (FCons [101] (TvInt 7)
                             (FCons [108] (TvList TNil) FNil))))).
 Proof. eexists. split; vm_compute; reflexivity. Qed.
+
+(* ------------------------------------------------------------ termination of the walk (C01/C02 for the renderer) *)
+
+(* The result type of the walk has no panic outcome: every Go panic site of marshal.go
+   (fields[f.CodeOrder()], enums.At, the typed lists' At, Value accessors of the wrong kind) is
+   excluded by the checks modelled before it or by the schema assumptions stated in docs/C20.md.
+   What remains is non-termination = [OutOfFuel] for every fuel.
+
+   A struct with a field of its own type:  struct Node { next :Node; }   (read sizes as measured) *)
+Definition rec_schema : schema :=
+  mkSchema [(1, NStruct 0 0 56 [mkField [110; 101; 120; 116] 5 65535 (FSlot 0 (TStruct 1) 0 RNull 32 24 0)])] 100.
+Definition rec_value : rval := RStruct [] [RNull].     (* a list node whose next pointer is null *)
+
+(* before the fix (cfg_nocut): the default value of next is written, which contains next again ...
+   the walk does not terminate for any amount of fuel (in Go: fatal stack overflow) *)
+Lemma rec_diverges : forall fuel exp st,
+  shown_struct no_floats cfg_nocut rec_schema fuel exp 1 [] [] st = OutOfFuel.
+Proof.
+  induction fuel as [|f IH]; intros exp st; [reflexivity|].
+  destruct st as [b|]; simpl; unfold bind; simpl; rewrite IH; reflexivity.
+Qed.
+
+Example render_total_refuted : forall fuel,
+  render no_floats cfg_nocut rec_schema fuel 1 rec_value = OutOfFuel.
+Proof.
+  intros [|f]; [reflexivity|].
+  unfold render, encode. simpl. unfold bind. simpl. rewrite rec_diverges. reflexivity.
+Qed.
+
+(* after the fix: inside the default value of Node a further null Node is written as () *)
+Example render_total_fixed_example :
+  render no_floats cfg_fixed rec_schema 3 1 rec_value
+  = Ok [40; 110; 101; 120; 116; 32; 61; 32; 40; 110; 101; 120; 116; 32; 61; 32; 40; 41; 41; 41].   (* (next = (next = ())) *)
+Proof. vm_compute. reflexivity. Qed.
+
+(* ---- totality, proved part.  For structs whose fields are all of primitive, text, data, enum,
+   interface or AnyPointer type (no struct / list / group fields) the walk returns (a value or an
+   error) with fuel 1, for EVERY stored value, cache state and expansion stack: discriminants
+   of no member, enum ordinals without an enumerant, offsets outside the sections and pointers
+   of the wrong kind never make it diverge.
+   MISSING for the full statement (hence _partial): the fuel bound for nested values,
+     fuel >= (depth v + 1 + N * (DD + 1)) * (G + 1)
+   (N struct types, DD depth of the deepest default value, G longest chain of nested groups,
+   groups acyclic) for the fixed walk; its pre-fix failure is [render_total_refuted]; the Go
+   side of it is exercised by the hostile / recursive-type correspondence runs. *)
+Definition no_oof {A} (m : M A) : Prop := forall st, m st <> OutOfFuel.
+
+Lemma bind_no_oof : forall {A B} (m : M A) (k : A -> M B),
+  no_oof m -> (forall a, no_oof (k a)) -> no_oof (bind m k).
+Proof.
+  intros A B m k Hm Hk st. unfold bind. specialize (Hm st).
+  destruct (m st) as [[a st']|e|]; [apply Hk|discriminate|congruence].
+Qed.
+Lemma ret_no_oof : forall {A} (a : A), no_oof (ret a).
+Proof. intros A a st. discriminate. Qed.
+Lemma fail_no_oof : forall {A} e, no_oof (@fail A e).
+Proof. intros A e st. discriminate. Qed.
+Lemma charge_no_oof : forall k, no_oof (charge k).
+Proof. intros k [b|]; unfold charge; [destruct (k <=? b)|]; discriminate. Qed.
+Lemma find_no_oof : forall c sc, no_oof (find c sc).
+Proof. intros c sc [b|]; unfold find; [|destruct (s_load sc <=? c_limit0 c)]; discriminate. Qed.
+
+Lemma shown_enum_no_oof : forall c sc id v, no_oof (shown_enum c sc id v).
+Proof.
+  intros c sc id v. unfold shown_enum. apply bind_no_oof; [apply find_no_oof|intros _].
+  destruct (lookup (s_nodes sc) id) as [[| ecost names |]|]; try apply fail_no_oof.
+  apply bind_no_oof; [apply charge_no_oof|intros _].
+  destruct (Z.of_nat (length names) <=? v); [apply ret_no_oof|].
+  destruct (nth_error names (Z.to_nat v)) as [[name nc]|]; [|apply fail_no_oof].
+  apply bind_no_oof; [apply charge_no_oof|intros _; apply ret_no_oof].
+Qed.
+
+Lemma collect_fields_no_oof : forall (step : field -> M (option tval)) fields,
+  (forall fd, In fd fields -> no_oof (step fd)) -> no_oof (collect_fields step fields).
+Proof.
+  intros step. induction fields as [|fd r IH]; intros H; simpl.
+  - apply ret_no_oof.
+  - apply bind_no_oof; [apply H; now left|intros o].
+    apply bind_no_oof; [apply IH; intros; apply H; now right|intros; apply ret_no_oof].
+Qed.
+
+Definition flat_ty (t : ty) : Prop := match t with TStruct _ | TList _ _ => False | _ => True end.
+Definition flat_field (fd : field) : Prop :=
+  match f_kind fd with FSlot _ t _ _ _ _ _ => flat_ty t | FGroup _ => False | FOther => True end.
+Definition flat_schema (sc : schema) : Prop :=
+  Forall (fun p => match snd p with NStruct _ _ _ fields => Forall flat_field fields | _ => True end) (s_nodes sc).
+
+Lemma lookup_flat : forall ns id dc doff fc fields,
+  Forall (fun p => match snd p with NStruct _ _ _ fields => Forall flat_field fields | _ => True end) ns ->
+  lookup ns id = Some (NStruct dc doff fc fields) -> Forall flat_field fields.
+Proof.
+  induction ns as [|[k m] ns IH]; intros id dc doff fc fields H E; simpl in E; [discriminate|].
+  inversion H; subst. destruct (k =? id); [inversion E; subst; assumption|]. eapply IH; eassumption.
+Qed.
+
+Theorem render_total_flat_partial : forall ffmt c sc fuel exp id d ps,
+  flat_schema sc -> no_oof (shown_struct ffmt c sc (S fuel) exp id d ps).
+Proof.
+  intros ffmt c sc fuel exp id d ps Hflat.
+  with_strategy opaque [find bind charge lookup collect_fields collect_elems ret fail lift shown_enum
+                        get_le get_bit ptr_at is_null as_struct data_bytes text_bytes sint Z.lxor
+                        Z.eqb Z.ltb Z.leb existsb c_cut andb] simpl.
+  apply bind_no_oof; [apply find_no_oof|intros _].
+  destruct (lookup (s_nodes sc) id) as [[dc doff fc fields| |]|] eqn:El; try apply fail_no_oof.
+  pose proof (lookup_flat _ _ _ _ _ _ Hflat El) as Hf.
+  apply bind_no_oof; [apply charge_no_oof|intros _].
+  apply bind_no_oof; [|intros; apply ret_no_oof].
+  apply collect_fields_no_oof. intros fd Hin. rewrite Forall_forall in Hf. specialize (Hf fd Hin).
+  unfold flat_field in Hf.
+  destruct (f_kind fd) as [off t dflt dptr tcost dvcost dpcost|gid|]; [|contradiction|apply ret_no_oof].
+  destruct (negb _); [apply ret_no_oof|].
+  apply bind_no_oof; [apply charge_no_oof|intros _].
+  apply bind_no_oof; [apply charge_no_oof|intros _].
+  apply bind_no_oof; [apply charge_no_oof|intros _].
+  apply bind_no_oof; [|intros; apply ret_no_oof].
+  destruct t; simpl in Hf; try contradiction; try apply ret_no_oof.
+  - destruct (is_null _); [apply bind_no_oof; [apply charge_no_oof|intros _]|]; apply ret_no_oof.
+  - destruct (is_null _); [apply bind_no_oof; [apply charge_no_oof|intros _]|]; apply ret_no_oof.
+  - apply shown_enum_no_oof.
+Qed.
